@@ -276,6 +276,40 @@ def run(ctx):
             if a.get('r') != 'error':
                 out['spec_mismatch'].append({'input': {'text': c['text'], 'class': 'undefined-variable', 'opts': c['opts']}, 'impl': a, 'spec': 'must raise CompilationError: unknown variable', 'classes': []})
         dist['undefined_variable_programs'] = len(uv)
+        # ---- an undefined variable in the positions LESS features open (real compiler only): argument of a mixin call (plain and defaulted
+        # parameter), default value, guard operand, arithmetic, built-in and unknown function, negation, media query, indirect reference,
+        # string / url interpolation, frame of @keyframes, colour function, body of a mixin / of a rule used as mixin, @media in a rule
+        UNDEF = ['.m(@a){w:@a}\n.b{.m(%s);}', '.pad(@size: 4px){padding:@size}\n.box{.pad(%s);}', '.m(@a; @b: 2px){w:@a @b}\n.b{.m(1px; %s);}',
+                 '.m(@a: %s){w:@a}\n.b{.m();}', '.g(@a) when (@a > %s){w:1}\n.v{.g(1);}', '.a{width: (%s + 1)}', '.a{width: floor(%s)}', '.a{width: foo(%s)}',
+                 '.a{width: -%s}', '@media (min-width: %s){.a{top:0}}\n.b{left:0}', '@media screen and (min-width: %s){.a{top:0}}', '.c{@media (max-width: %s){top:0}}',
+                 '.a{content: "x@{%n}y"}', '.a{background: url("@{%n}/a.png")}', '@keyframes k{from{top:%s}}', '.a{width: darken(%s, 10%%)}',
+                 '.m(){w:%s}\n.b{.m();}', '.a{@media print{top:%s}}', '.a{.b;}\n.b{w:%s}', '.m(@a){w:@a}\n.w(@x){.m(%s);}\n.b{.w(1);}',
+                 '.m(@a){w:@a}\n.b{.m(%s);}\n.c{.m(2px);}', '@p: "%n";\n.a{width: @@p}', '.a{width: 1px %s, 2px}', '.x{.y{.z{top: %s}}}']
+        ucases = []
+        for tmpl in UNDEF:
+            for k in range(1 if quick else 4):
+                nm = 'undefined-%d' % rng.randint(0, 99)
+                pre = rng.choice(['', '@defined: 1px;\n', '.ok{color:red}\n'])
+                ucases.append(pre + tmpl.replace('%s', '@' + nm).replace('%n', nm).replace('%%', '%') + rng.choice(['\n', '\n.after{top:0}\n']))
+        ua = pool.run([{'kind': 'compile', 'text': t, 'opts': {}} for t in ucases])
+        for t, a in zip(ucases, ua):
+            out['evaluations'] += 1
+            if a.get('r') != 'error':
+                out['spec_mismatch'].append({'input': {'text': t, 'class': 'undefined-variable (LESS position)', 'opts': {}}, 'impl': a, 'spec': 'must raise CompilationError: unknown variable', 'classes': []})
+        dist['undefined_variable_less_positions'] = len(ucases)
+        # ---- characters outside ASCII (name characters for the lexer; outside the models): whatever they do, no unrelated exception escapes
+        NONASCII = ['\u00a0', '\u00e9', '\u2028', '\u3000', '\ufeff', '\u00ff', '\u0080']
+        ncases = []
+        for k in range(24 if quick else 300):
+            base_t = rng.choice(['.a{color:red}', '.a .b{top:0; left:1px}', '@v: 1px;\n.c{width:@v}', '@media print{.d{top:0}}', '.m(@a){w:@a}\n.e{.m(1)}'])
+            pos = rng.choice([0, len(base_t)] + [i for i, ch in enumerate(base_t) if ch in ' {};:'])
+            ncases.append(base_t[:pos] + rng.choice(NONASCII) + base_t[pos:])
+        na = pool.run([{'kind': 'compile', 'text': t, 'opts': {}} for t in ncases])
+        for t, a in zip(ncases, na):
+            out['evaluations'] += 1
+            if a.get('r') not in ('ok', 'error'):
+                out['spec_mismatch'].append({'input': {'text': t, 'class': 'non-ASCII character', 'opts': {}}, 'impl': a, 'spec': 'either compiles or raises CompilationError; never another exception', 'classes': []})
+        dist['non_ascii_cases'] = len(ncases)
         # ---- the corruption sits in a file reached through @import (also through a second level): the importing compilation must fail
         itmp = tempfile.mkdtemp(prefix='lessverif-c15i-')
         try:
